@@ -49,7 +49,16 @@ func (e *Env) Dump() []string {
 	_ = k.AllowedBidder.Walk(ctx, nil, func(key collections.Pair[uint64, sdk.AccAddress], ab types.AllowedBidder) (bool, error) {
 		name := e.addrName(key.K2(), seq)
 		ok := ab.AuctionId == key.K1() && ab.Bidder == key.K2().String()
-		out = append(out, fmt.Sprintf("ST L %d %s %s %d", key.K1(), strings.TrimPrefix(name, "u"), ab.MaxBidAmount, b2i(ok)))
+		who := strings.TrimPrefix(name, "u")
+		if !strings.HasPrefix(name, "u") {
+			// an entry for an account that is none of the users: the module authority is account 900 of the model
+			// (the driver reads the signer "gov" as that account), anything else 999
+			who = "999"
+			if key.K2().String() == e.gov {
+				who = "900"
+			}
+		}
+		out = append(out, fmt.Sprintf("ST L %d %s %s %d", key.K1(), who, ab.MaxBidAmount, b2i(ok)))
 		return false, nil
 	})
 	_ = k.VestingQueue.Walk(ctx, nil, func(key collections.Pair[uint64, time.Time], v types.VestingQueue) (bool, error) {
